@@ -5,6 +5,9 @@ HERE = os.path.dirname(os.path.dirname(os.path.abspath(__file__)))
 
 # id -> (technique, level text, level note, design ref)
 CHECKS = {
+ "C10": ("model-based testing against a reference address-decode model: exhaustive write-target x probe matrix + proptest write histories with shrinking + fetch-view/data-read differential",
+         "Every address W is written on several cartridges and after every single write all 65536 addresses are read back and compared with models::bus (storage independence, ROM constancy under the controller model's bank mapping, constant unmapped regions, I/O writable-bit masks); generated write histories biased to region boundaries and bank registers get the same full read-back; the interpreter's and the translator's instruction-fetch views are compared with data reads for every start address in ROM, work RAM and high RAM. The W x probe matrix is complete per cartridge; histories are sampled.",
+         "trusted: models::bus and models::mbc; static device time (no clocks delivered); RAM kept enabled and MBC3 RTC selections excluded by construction; initial contents captured, not asserted", "DESIGN.md §5 C10"),
  "C11": ("generated-input crash search: exhaustive address x access-kind sweeps over all header configurations and banking states in forked workers + proptest write histories",
          "All 504 supported header combinations (7 types x 12 ROM-size codes x 6 RAM-size codes) are loaded from in-memory files; for each, banking-register states at every mask edge x all 65536 addresses x byte/word read/write through the four extern bus helpers, OAM DMA from all 256 pages and the instruction-fetch view, plus generated write histories followed by full read sweeps. Oracle: the worker survives (no signal, abort or panic) in a build with overflow checks on. Quick rotates a third of the banking states per configuration; thorough runs the full product.",
          "only crash-freedom is decided here (values are C10/C12); Core::with_code_block test cores are out of scope", "DESIGN.md §5 C11"),
